@@ -52,6 +52,11 @@ pub struct Op {
     /// sources handed over as files through the simulated disk instead of literals
     pub files: bool,
     pub bp: BuilderPath,
+    /// `compile()` into a file instead of `compile_to_string()`: every such operation of a
+    /// thread writes to the SAME path (a build script regenerating its bindings), and the file's
+    /// content afterwards is the result that is compared
+    #[serde(default)]
+    pub to_file: bool,
 }
 
 #[derive(Clone, Debug, Serialize, Deserialize, PartialEq)]
@@ -388,6 +393,7 @@ impl Scenario for C11Threads {
                     backend: w.pick(&backends).clone(),
                     files: w.chance(1, 3),
                     bp: BuilderPath { output_first: w.chance(1, 2), batch_paths: w.chance(1, 2), swap_backend: w.chance(1, 6), swap_late: false },
+                    to_file: false,
                 });
             }
             ops.push(h);
@@ -411,7 +417,16 @@ impl Scenario for C11Threads {
                         backend: be.clone(),
                         files: false,
                         bp: BuilderPath::default(),
+                        to_file: false,
                     });
+                }
+            }
+        }
+        {
+            let mut tf = root.fork("to-file");
+            for h in ops.iter_mut() {
+                for op in h.iter_mut() {
+                    op.to_file = tf.chance(1, 5);
                 }
             }
         }
@@ -582,7 +597,7 @@ impl Scenario for C11Threads {
         let mut n_ops = 0;
         for (t, h) in p.ops.iter().enumerate() {
             // (backend, sources, builder path, files to (re)write right before the compilation)
-            let mut prepared: Vec<(BackendSel, Vec<Src>, BuilderPath, Vec<(String, String)>)> = vec![];
+            let mut prepared: Vec<(BackendSel, Vec<Src>, BuilderPath, Vec<(String, String)>, bool)> = vec![];
             for (k, op) in h.iter().enumerate() {
                 let texts = input_texts(&p.inputs[op.input], &op.arr);
                 let mut late_writes = vec![];
@@ -605,12 +620,15 @@ impl Scenario for C11Threads {
                 } else {
                     texts.into_iter().map(Src::Literal).collect()
                 };
-                prepared.push((op.backend.clone(), srcs, op.bp.clone(), late_writes));
+                prepared.push((op.backend.clone(), srcs, op.bp.clone(), late_writes, op.to_file));
                 n_ops += 1;
             }
+            let thread_root = root.to_string();
             bodies.push(Box::new(move || {
                 let mut results = vec![];
-                for (k, (be, srcs, bp, late_writes)) in prepared.into_iter().enumerate() {
+                let out_path = format!("{thread_root}/t{t}/bindings.out");
+                let _ = std::fs::create_dir_all(format!("{thread_root}/t{t}"));
+                for (k, (be, srcs, bp, late_writes, to_file)) in prepared.into_iter().enumerate() {
                     if !late_writes.is_empty() {
                         // harness I/O: outside the seam (not a simulated call, no yield point)
                         let tid = crate::sched::current_tid();
@@ -621,7 +639,19 @@ impl Scenario for C11Threads {
                         shim::register_thread(tid);
                     }
                     sim::op_begin(&format!("t{t}.op{k}"));
-                    let r = sut::compile_to_string(&be, &srcs, &bp);
+                    let r = if to_file {
+                        let mut r = sut::compile(&be, &srcs, &sut::OutSel::File(out_path.clone()), &bp);
+                        if r.ok {
+                            // harness I/O: outside the seam
+                            let tid = crate::sched::current_tid();
+                            shim::register_thread(-1);
+                            r.generated = std::fs::read_to_string(&out_path).unwrap_or_else(|e| format!("<cannot read the delivered file: {e}>"));
+                            shim::register_thread(tid);
+                        }
+                        r
+                    } else {
+                        sut::compile_to_string(&be, &srcs, &bp)
+                    };
                     sim::op_end(&format!("t{t}.op{k}"));
                     results.push(r);
                 }
